@@ -135,7 +135,10 @@ def SPFKinSpaceR(leg_lengths : 'np.ndarray[float]',
             j+=2
 
         t = top_plate_guess[2]
-        if t < leg_ext_min/2:
+        #Only rescue a guess that fell through the base plane. A flat platform legitimately
+        #stands lower than half its minimum leg length, and clamping it there on every
+        #iteration keeps the solver from ever converging.
+        if t <= 0:
             top_plate_guess[2] = leg_ext_min/2.0
         #angs[5] = np.clip(angs[5], -np.pi/3.85, np.pi/3.85)
         #Must translate platform coordinates into base coordinate system
